@@ -25,14 +25,16 @@
 (*                                                                         *)
 (* Properties: RenderIsolation (a finished thread's output is exactly the  *)
 (* sequential meaning of its page under its own context), PrivateStacks,   *)
-(* MemoStable (a shared cell only ever holds its canonical value),         *)
+(* MemoStable, MemoCompleteWhenVisible (a visible shared cell holds its    *)
+(* complete canonical value; PublishEarly = TRUE is the broken variant     *)
+(* "publish, then complete" that TLC must refute),                         *)
 (* BoundUnderConcurrency (whenever nobody is inside a store the collection *)
 (* is within its bound).  SharedBuf = TRUE is the broken variant "render   *)
 (* state lives on the Template": all threads use one buffer stack; TLC     *)
 (* must find RenderIsolation violated there (used as a control).           *)
 (***************************************************************************)
 EXTENDS Naturals, Sequences, SequencesExt, FiniteSets, TLC
-CONSTANTS Threads, Pages, Progs, CtxVals, Cells, Cap, SharedBuf
+CONSTANTS Threads, Pages, Progs, CtxVals, Cells, Cap, SharedBuf, PublishEarly
 Bound == Cap + Cap \div 2
 Canon(c) == c                       \* what initialising cell c yields, whoever does it
 Owner(t) == IF SharedBuf THEN CHOOSE x \in Threads : TRUE ELSE t
@@ -82,7 +84,9 @@ Check(t) == /\ ip[t] >= 1 /\ ip[t] <= Len(Prog(t)) /\ phase[t] = "run"
 StoreBegin(t) == /\ phase[t] = "init"
                  /\ LET c == Prog(t)[ip[t]].c IN
                       /\ size' = (IF cell[c] = "unset" THEN size + 1 ELSE size)
-                      /\ cell' = [cell EXCEPT ![c] = Canon(c)]
+                      \* the code builds the complete value first and publishes it with one store; PublishEarly = TRUE is
+                      \* the broken variant "publish, then complete" (the cell is visible while still partial)
+                      /\ cell' = [cell EXCEPT ![c] = IF PublishEarly THEN "partial" ELSE Canon(c)]
                  /\ inside' = inside \cup {t} /\ phase' = [phase EXCEPT ![t] = "trim"]
                  /\ UNCHANGED <<page, ctx, ip, buf, out>>
 \* _manage_size: while len > Cap + Cap/2: keep the Cap most recent entries (any others are dropped)
@@ -95,7 +99,9 @@ Trim(t) == /\ phase[t] = "trim" /\ Cap > 0 /\ size > Bound
 StoreEnd(t) == /\ phase[t] = "trim" /\ (Cap = 0 \/ size <= Bound)
                /\ inside' = inside \ {t} /\ phase' = [phase EXCEPT ![t] = "run"]
                /\ ip' = [ip EXCEPT ![t] = @ + 1]
-               /\ UNCHANGED <<page, ctx, buf, out, cell, size>>
+               /\ cell' = (IF PublishEarly /\ cell[Prog(t)[ip[t]].c] = "partial"
+                           THEN [cell EXCEPT ![Prog(t)[ip[t]].c] = Canon(Prog(t)[ip[t]].c)] ELSE cell)
+               /\ UNCHANGED <<page, ctx, buf, out, size>>
 End(t) == /\ ip[t] = Len(Prog(t)) + 1 /\ phase[t] = "run"
           /\ out' = [out EXCEPT ![t] = Top(buf[Owner(t)])]
           /\ ip' = [ip EXCEPT ![t] = Len(Prog(t)) + 2]
@@ -108,7 +114,10 @@ Done(t) == ip[t] = Len(Prog(t)) + 2
 RenderIsolation == \A t \in Threads : Done(t) => out[t] = Solo(page[t], ctx[t])
 BoundUnderConcurrency == (Cap > 0 /\ inside = {}) => size <= Bound
 SizeIsCount == size = Cardinality({c \in Cells : cell[c] # "unset"})
-MemoStable == \A c \in Cells : cell[c] \in {"unset", Canon(c)}
+MemoStable == \A c \in Cells : cell[c] \in {"unset", "partial", Canon(c)}
+\* whatever another thread can read from a shared memo cell is the fully initialised value (Cache._def_regions entry with
+\* the def's own cache_* arguments merged in, Template.cache, reserved_names, a collection entry ...)
+MemoCompleteWhenVisible == \A c \in Cells : cell[c] \in {"unset", Canon(c)}
 \* a step of one thread never touches the private state of another
 PrivateStacks == [][\A t \in Threads : Step(t) => \A o \in Threads \ {t} : buf'[o] = buf[o] /\ out'[o] = out[o] /\ ip'[o] = ip[o]]_vars
 AllRendersFinish == \A t \in Threads : <>Done(t)
